@@ -133,3 +133,80 @@ Theorem C01_cycles_no_data_line : forall V (sem : N -> V -> V -> V -> V -> V) (z
   nth p (snd (line_cycles sem zero c k (s0, s1))) zero = zero /\
   (1 <= k -> nth p (fst (line_cycles sem zero c k (s0, s1))) zero = zero).
 Proof. intros V sem zero. exact (KV.Proofs.CycleProofs.cycles_no_data_line sem zero). Qed.
+
+(** THE CORRESPONDENCE-CHECKED MODEL (Model/LogicSimModel.v: list memory, opcode -> primitive through the regenerated table;
+    evaluated against kyupy.logic_sim.LogicSim on every generated circuit) computes what the theorems above are about.
+    [semN sem] reads an opcode through the opcode table; [ops_known]: every scheduled opcode has a primitive; [locs_ok]: every
+    published location lies inside the memory.  (Proofs/LogicSimGlue.v) *)
+From KV Require Import Model.LogicSimModel.
+From KV Require Proofs.LogicSimGlue Proofs.ReuseStrip.
+
+(* c_prop on the list memory refines the function-memory execution [mexec] of the end-to-end theorems *)
+Theorem C01_model_c_prop_refines : forall V (dflt : V) (sem : prim -> V -> V -> V -> V -> V) so m,
+  KV.Proofs.LogicSimGlue.ops_known so -> KV.Proofs.LogicSimGlue.locs_ok so (List.length m) ->
+  List.length (c_prop dflt sem so m) = List.length m /\
+  forall j, nth j (c_prop dflt sem so m) dflt
+            = mexec (KV.Proofs.LogicSimGlue.semN sem) dflt (so_loc so) (so_ops so) (fun l => nth l m dflt) j.
+Proof. intros V dflt sem. exact (KV.Proofs.LogicSimGlue.c_prop_refines dflt sem). Qed.
+
+(* both side conditions hold for every SimOps result, whatever the options; s_to_c writes the assigned value to every PPI slot
+   that has a location and leaves the constant-zero slot alone; c_to_s reads the PPO slots *)
+Theorem C01_model_build_conditions : forall c caps cmin reuse strip so,
+  wf_netlist c -> comb_acyclic c -> (0 < cmin)%N -> KV.Proofs.EndToEnd.gates_known c -> (strip = true -> KV.Proofs.ReuseStrip.forks_ok c) ->
+  build c caps cmin reuse strip = Some so ->
+  KV.Proofs.LogicSimGlue.ops_known so /\ KV.Proofs.LogicSimGlue.locs_ok so (N.to_nat (so_len so)) /\
+  (forall V (dflt : V) (s0 m : list V) i l, i < so_slen so -> i < List.length s0 -> so_loc so (so_ppi so + i) = Some l ->
+     List.length m = N.to_nat (so_len so) -> nth l (s_to_c so s0 m) dflt = nth i s0 dflt) /\
+  (forall V (dflt : V) (s0 m : list V) lz, so_loc so (so_nlines so) = Some lz -> nth lz (s_to_c so s0 m) dflt = nth lz m dflt) /\
+  (forall V (dflt : V) (m s1 : list V), List.length s1 = so_slen so ->
+     c_to_s dflt so m s1 = map (fun p => match so_loc so (so_ppo so + p) with Some l => nth l m dflt | None => nth p s1 dflt end)
+                               (seq 0 (so_slen so))).
+Proof. exact KV.Proofs.LogicSimGlue.build_refinement_conditions. Qed.
+
+(** MODEL-LEVEL END TO END.  For every well-formed, combinationally acyclic netlist of known gates, every combination of c_reuse and
+    strip_forks, every stimulus and ANY valuation [v] of the lines that satisfies all node equations: one propagation of the model from
+    a cleared memory captures, at every s_node position with a data line, [v] of that line; the other positions keep their entry. *)
+Theorem C01_logicsim_model_correct : forall V (dflt : V) (sem : prim -> V -> V -> V -> V -> V) c caps cmin reuse strip so s0 s1 v,
+  wf_netlist c -> comb_acyclic c -> (0 < cmin)%N -> KV.Proofs.EndToEnd.gates_known c ->
+  (strip = true -> KV.Proofs.ReuseStrip.forks_ok c /\ forall x b cc d, sem BUF1 x b cc d = x) ->
+  build c caps cmin reuse strip = Some so ->
+  List.length s0 = so_slen so -> List.length s1 = so_slen so ->
+  solution (KV.Proofs.LogicSimGlue.semN sem) dflt c (fun p => nth p s0 dflt) v ->
+  so_slen so = List.length (s_nodes c) /\ List.length (simulate dflt sem so s0 s1) = so_slen so /\
+  forall p, p < so_slen so ->
+    nth p (simulate dflt sem so s0 s1) dflt = match snode_in c p with Some l0 => v l0 | None => nth p s1 dflt end.
+Proof. intros V dflt sem. exact (KV.Proofs.LogicSimGlue.logicsim_model_correct dflt sem). Qed.
+
+(* ... equivalently, the whole result vector is the capture of the scheduler's gate-by-gate execution (C01_build_ops_solution) *)
+Theorem C01_logicsim_model_capture : forall V (dflt : V) (sem : prim -> V -> V -> V -> V -> V) c caps cmin reuse strip so s0 s1,
+  wf_netlist c -> comb_acyclic c -> (0 < cmin)%N -> KV.Proofs.EndToEnd.gates_known c ->
+  (strip = true -> KV.Proofs.ReuseStrip.forks_ok c /\ forall x b cc d, sem BUF1 x b cc d = x) ->
+  build c caps cmin reuse strip = Some so ->
+  List.length s0 = List.length (s_nodes c) -> List.length s1 = List.length (s_nodes c) ->
+  simulate dflt sem so s0 s1
+  = capture dflt c (iexec (KV.Proofs.LogicSimGlue.semN sem) (fun x => x) (build_ops c false) (init_env dflt c (fun p => nth p s0 dflt))) s1.
+Proof. intros V dflt sem. exact (KV.Proofs.LogicSimGlue.logicsim_model_capture dflt sem). Qed.
+
+(** k CYCLES of the model -- the memory is carried over, not cleared; with c_reuse a location may hold a stale value, but the
+    constant-zero slot is pinned (never overwritten), s_to_c rewrites every PPI slot, and every other read is of an owned slot
+    (map_check) -- give exactly the vectors of [line_cycles], i.e. THE k-fold synchronous semantics of the netlist *)
+Theorem C01_cycles_model_correct : forall V (dflt : V) (sem : prim -> V -> V -> V -> V -> V) c caps cmin reuse strip so k s0 s1,
+  wf_netlist c -> comb_acyclic c -> (0 < cmin)%N -> KV.Proofs.EndToEnd.gates_known c ->
+  (strip = true -> KV.Proofs.ReuseStrip.forks_ok c /\ forall x b cc d, sem BUF1 x b cc d = x) ->
+  build c caps cmin reuse strip = Some so ->
+  List.length s0 = List.length (s_nodes c) -> List.length s1 = List.length (s_nodes c) ->
+  let r := cycles k dflt sem so (List.length (c_io c)) (repeat dflt (N.to_nat (so_len so))) s0 s1 in
+  (snd (fst r), snd r) = line_cycles (KV.Proofs.LogicSimGlue.semN sem) dflt c k (s0, s1) /\
+  iter_sem (KV.Proofs.LogicSimGlue.semN sem) dflt c k s0 s1 (snd (fst r)) (snd r).
+Proof. intros V dflt sem. exact (KV.Proofs.LogicSimGlue.cycles_model_correct dflt sem). Qed.
+
+(* the entry point of the 2-valued correspondence check itself: what it returns IS the k-fold Boolean next-state function
+   (LUT semantics, C01_logic2_gate_by_gate); it returns None only where SimOps raises (a stripped fork without stem) *)
+Theorem C01_sim_case2_correct : forall c reuse strip k s0 s1,
+  wf_netlist c -> comb_acyclic c -> KV.Proofs.EndToEnd.gates_known c -> (strip = true -> KV.Proofs.ReuseStrip.forks_ok c) ->
+  List.length s0 = List.length (s_nodes c) -> List.length s1 = List.length (s_nodes c) ->
+  match sim_case2 c reuse strip k s0 s1 with
+  | Some r => r = line_cycles sem_lut false c k (s0, s1) /\ iter_sem sem_lut false c k s0 s1 (fst r) (snd r)
+  | None => build_stems c strip (List.length (c_lines c) + 3 + List.length (s_nodes c) + List.length (s_nodes c)) = None
+  end.
+Proof. exact KV.Proofs.LogicSimGlue.sim_case2_correct. Qed.
